@@ -349,9 +349,11 @@ def run_visit(prog):
         for n in H.nodes(h["body"], "if"):
             rec = any(True for _ in H.calls(n[2], path="jrsonnet_deps::collect_deps"))
             if rec:
+                # the flag is the bool half of the (path, is-code) pairs the loop iterates over (called `expression` today)
+                flags = {b[0] for it, pat, _b in H.for_loops(h["body"]) for b in H.pat_binds(pat) if str(b[1]) == "bool"} or {"expression"}
                 names = [x[1][1] for x in H.walk(n[1]) if H.tag(x) == "path" and x[1][0] == "local"]
-                neg = any(H.tag(x) == "unary" and x[1] == "!" and H.local_name(x[2]) == "expression" for x in H.walk(n[1]))
-                if "expression" in names and not neg:
+                neg = any(H.tag(x) == "unary" and x[1] == "!" and H.local_name(x[2]) in flags for x in H.walk(n[1]))
+                if flags & set(names) and not neg:
                     good = True
     obs.append(ok(RULE, key, site(f), "recursion is conditional on the `expression` flag") if good else
                bad(RULE, key, site(f) if f else "", "collect_deps does not recurse exactly into code imports"))
